@@ -135,3 +135,50 @@ def connection(rng, c, kind, ipid, maxpieces=4):
             off += len(piece)
     return {"frames": frames, "eps": (ep(cip, cp), ep(sip, sport)), "ver": ver,
             "style": {kk: (vv if not callable(vv) else "per-segment") for kk, vv in st.items() if kk not in ("dmac", "smac", "ipopts", "cip", "sip")}}
+
+
+def endpoints(frame):
+    """endpoints of an Ethernet frame built by pkt(): {"sa": {"v", "b"}, "da": ..., "sp", "dp"} in the shape Filter.tla uses"""
+    if frame[12:14] == b"\x08\x00":
+        ihl = (frame[14] & 15) * 4
+        sa, da, t = frame[26:30], frame[30:34], 14 + ihl
+        v = 4
+    else:
+        sa, da, t = frame[22:38], frame[38:54], 54
+        v = 6
+    return {"sa": {"v": v, "b": list(sa)}, "da": {"v": v, "b": list(da)}, "sp": (frame[t] << 8) | frame[t + 1], "dp": (frame[t + 2] << 8) | frame[t + 3]}
+
+
+def noise(rng, ipid, n):
+    """n frames that belong to no TCP connection the analyzers can follow: UDP and ICMP over IPv4 / IPv6, a later fragment of a TCP
+    datagram, frames cut inside the IP or the TCP header, ARP, an unknown EtherType, a few arbitrary bytes.  Sequentially they yield
+    nothing (or an error for that packet alone); they must not disturb what comes after them on any path."""
+    out = []
+    a4, b4 = (10, 9, 8, 7), (10, 9, 8, 6)
+    a6, b6 = V6FORMS[0](4000), V6FORMS[0](4001)
+    for i in range(n):
+        k = rng.randrange(9)
+        if k == 0:                                                   # UDP / IPv4
+            f = bytearray(pkt(4, a4, b4, 5000 + i, 53, 1, 0, 0x02, b"query", ipid=ipid()))
+            f[23] = 17
+        elif k == 1:                                                 # ICMP / IPv4
+            f = bytearray(pkt(4, a4, b4, 0x0800, 0, 1, 0, 0, b"ping", ipid=ipid()))
+            f[23] = 1
+        elif k == 2:                                                 # UDP / IPv6
+            f = bytearray(pkt(6, a6, b6, 5000 + i, 53, 1, 0, 0x02, b"query"))
+            f[20] = 17
+        elif k == 3:                                                 # a later fragment (offset 185) of a TCP datagram
+            f = bytearray(pkt(4, a4, b4, 80, 40000 + i, 7, 7, 0x18, b"tail of a datagram", ipid=ipid(), fragw=0x00b9))
+        elif k == 4:                                                 # cut inside the IPv4 header
+            f = bytearray(pkt(4, a4, b4, 40000 + i, 80, 1, 0, 0x02, ipid=ipid())[:14 + rng.choice([1, 10, 19])])
+        elif k == 5:                                                 # cut inside the TCP header
+            f = bytearray(pkt(rng.choice([4, 6]), a4 if False else (a4 if rng.random() < 0.5 else a4), b4, 40000 + i, 80, 1, 0, 0x02, ipid=ipid()))
+            f = f[:len(f) - rng.choice([1, 8, 19])]
+        elif k == 6:                                                 # ARP
+            f = bytearray(MACS[5] + bytes([2, 0, 0, 0, 0, 1]) + b"\x08\x06" + bytes([0, 1, 8, 0, 6, 4, 0, 1]) + bytes(20))
+        elif k == 7:                                                 # unknown EtherType
+            f = bytearray(MACS[0] + bytes([2, 0, 0, 0, 0, 1]) + b"\x88\xcc" + bytes(rng.randrange(1, 60)))
+        else:
+            f = bytearray(rng.randbytes(rng.choice([0, 1, 13, 14, 15, 33])))
+        out.append(bytes(f))
+    return out
